@@ -22,7 +22,7 @@ def parseKind (s : String) : R Kind :=
 def parseOp (j : Json) : R Op := do
   let t ← jStr (← fld j "t")
   match t with
-  | "setSeed" => return .setSeed (← nat j "s") (← jBool (← fld j "cpu"))
+  | "setSeed" => return .setSeed (← jInt (← fld j "s")) (← jBool (← fld j "cpu"))
   | "burn" => return .burn (← nat j "m")
   | "construct" =>
     return .construct (← parseKind (← jStr (← fld j "kind"))) (← nat j "n") (← optNat j "h") (← optNat j "a")
@@ -88,6 +88,9 @@ def trace (st : St Nat) : List Op → List Json
       ("pure", .bool op.isPure),
       ("calls", .arr ((stepCalls st op).map callOut).toArray),
       ("draws", nOut (stepDraws st op)),
+      -- token of the VALUES drawn from torch's stream by this operation (a function of the stream of the seed word in
+      -- force and of the position only — not of any parameter)
+      ("drawn", nOut (hashList (Gen.take tokenSem.mix (stepDraws st op) st.torchGen).1)),
       ("torch_before", genOut st.torchGen),
       ("torch_after", genOut r.1.torchGen),
       ("numpy_changed", .bool (r.1.numpyGen != st.numpyGen)),
